@@ -74,24 +74,6 @@ theorem digit_facts {c : Char} (h : c.isDigit = true) : isDigitU c = true ∧ ye
   rw [Char.ofNat_toNat] at this
   exact this h
 
-/-- **year ranges**: every token made of ASCII digits and punctuation with at least one digit — `2001`,
-`2001-2003,`, `1999/2000` — is taken as a year range by the model of `is_year_range` -/
-theorem yearSpec_isYearRange (t : Str) (h : Dep5.isYearSpec t = true) : isYearRange t = true := by
-  simp only [Dep5.isYearSpec, Bool.and_eq_true, Bool.not_eq_true', List.isEmpty_eq_false_iff, List.all_eq_true,
-    List.any_eq_true, Bool.or_eq_true] at h
-  obtain ⟨⟨hne, hall⟩, d, hd, hdig⟩ := h
-  unfold isYearRange
-  have hne' : t.isEmpty = false := by cases t <;> simp_all
-  have hp : t.all (yearPunct.contains ·) = true := by
-    rw [List.all_eq_true]
-    intro c hc
-    rcases hall c hc with h1 | h1
-    · exact (digit_facts h1).2
-    · exact punct_subset c (by simpa using h1)
-  have hany : t.any isDigitU = true := by
-    rw [List.any_eq_true]; exact ⟨d, hd, (digit_facts hdig).1⟩
-  simp only [hne', hp, hany, Bool.not_false, Bool.and_self, Bool.or_true, Bool.true_and]
-
 end Props.C09
 
 /-! ## the field converters on the grammar -/
@@ -619,38 +601,64 @@ theorem ascii_char_facts {c : Char} (h : c.toNat < 128) :
   have := ascii_table c.toNat h
   rwa [Char.ofNat_toNat] at this
 
-/-- on an ASCII word without spaces, the model of `is_year_range` is the specification's year range -/
-theorem isYearRange_eq_spec (t : Str) (hascii : ∀ c ∈ t, c.toNat < 128) (hsp : ' ' ∉ t) :
+theorem yearPunct_ascii : ∀ c ∈ yearPunct, c.toNat < 128 := by decide
+theorem punct_ascii : ∀ c ∈ Dep5.punct, c.toNat < 128 := by decide
+
+theorem asciiDigit_lt {c : Char} (h : isAsciiDigit c = true) : c.toNat < 128 := by
+  have := Char.isDigit_iff_toNat.mp h
+  have h9 : '9'.toNat = 57 := rfl
+  omega
+
+/-- character by character (any character but the space), the punctuation class of `is_year_range` is the specification's -/
+theorem yearPunct_char (c : Char) (hsp : c ≠ ' ') :
+    yearPunct.contains c = (isAsciiDigit c || Dep5.punct.contains c) := by
+  by_cases h : c.toNat < 128
+  · rw [(ascii_char_facts h).2]
+    have : (c == ' ') = false := by simpa using hsp
+    simp [this]
+  · have h1 : yearPunct.contains c = false := by
+      cases hc : yearPunct.contains c with
+      | false => rfl
+      | true => exact absurd (yearPunct_ascii c (List.contains_iff_mem.mp hc)) h
+    have h2 : Dep5.punct.contains c = false := by
+      cases hc : Dep5.punct.contains c with
+      | false => rfl
+      | true => exact absurd (punct_ascii c (List.contains_iff_mem.mp hc)) h
+    have h3 : isAsciiDigit c = false := by
+      cases hc : isAsciiDigit c with
+      | false => rfl
+      | true => exact absurd (asciiDigit_lt hc) h
+    rw [h1, h2, h3]; rfl
+
+/-- on a word without spaces, the model of `is_year_range` is the specification's year range -/
+theorem isYearRange_eq_spec (t : Str) (hsp : ' ' ∉ t) :
     isYearRange t = Dep5.isYearSpec t := by
-  have h1 : t.all isDigitU = t.all Char.isDigit := by
-    apply all_congr'
-    intro c hc; exact (ascii_char_facts (hascii c hc)).1
   have h2 : t.all (yearPunct.contains ·) = t.all (fun c => isAsciiDigit c || Dep5.punct.contains c) := by
     apply all_congr'
     intro c hc
-    rw [(ascii_char_facts (hascii c hc)).2]
-    have : (c == ' ') = false := by
-      have : c ≠ ' ' := fun e => hsp (e ▸ hc)
-      simpa using this
-    simp [this]
-  have h3 : t.any isDigitU = t.any isAsciiDigit := by
-    apply any_congr'
-    intro c hc; exact (ascii_char_facts (hascii c hc)).1
+    exact yearPunct_char c (fun e => hsp (e ▸ hc))
   unfold isYearRange Dep5.isYearSpec
-  rw [h1, h2, h3]
-  cases t with
-  | nil => rfl
-  | cons c cs =>
-    simp only [List.isEmpty_cons, Bool.not_false, Bool.true_and]
-    cases hd : (c :: cs).all Char.isDigit with
-    | false => simp
-    | true =>
-      have hall := List.all_eq_true.mp hd
-      have ha : (c :: cs).all (fun c => isAsciiDigit c || Dep5.punct.contains c) = true := by
-        rw [List.all_eq_true]; intro x hx; simp [hall x hx]
-      have hb : (c :: cs).any isAsciiDigit = true := by
-        rw [List.any_eq_true]; exact ⟨c, by simp, hall c (by simp)⟩
-      rw [ha, hb]; rfl
+  rw [h2]
+  cases hall : t.all (fun c => isAsciiDigit c || Dep5.punct.contains c) with
+  | false => rfl
+  | true =>
+    -- every character is ASCII, where the two notions of digit agree
+    have h3 : t.any isDigitU = t.any isAsciiDigit := by
+      apply any_congr'
+      intro c hc
+      have := List.all_eq_true.mp hall c hc
+      have hascii : c.toNat < 128 := by
+        simp only [Bool.or_eq_true] at this
+        rcases this with hd | hp
+        · exact asciiDigit_lt hd
+        · exact punct_ascii c (List.contains_iff_mem.mp hp)
+      exact (ascii_char_facts hascii).1
+    rw [h3]
+
+/-- **year ranges**: every token the specification calls a year range — `2001`, `2001-2003,`, `1999/2000`, `２０１８` —
+is taken as one by the model of `is_year_range` -/
+theorem yearSpec_isYearRange (t : Str) (hsp : ' ' ∉ t) (h : Dep5.isYearSpec t = true) : isYearRange t = true := by
+  rw [isYearRange_eq_spec t hsp]; exact h
 
 theorem joinSp_eq (ws : List Str) : Dep5.splitStatement.joinSp ws = join [' '] ws := by
   induction ws with
@@ -661,7 +669,7 @@ theorem joinSp_eq (ws : List Str) : Dep5.splitStatement.joinSp ws = join [' '] w
     | cons v vs => simp only [Dep5.splitStatement.joinSp, ih, join1_cons2]
 
 /-- **one copyright statement**: an optional leading year range, then the holder -/
-theorem statement_eq (s : Str) (h : SS s) (ha : asciiFirst s = true) :
+theorem statement_eq (s : Str) (h : SS s) :
     statementFromValue s = Dep5.splitStatement s := by
   have hws := splitWs_singleSpaced s h
   have hval : join [' '] (splitWs s) = s := by rw [hws, join_splitChar]
@@ -681,11 +689,7 @@ theorem statement_eq (s : Str) (h : SS s) (ha : asciiFirst s = true) :
         have := h.onlySp c hcs hs
         subst this
         exact absurd hc htsp
-    have htascii : ∀ c ∈ t, c.toNat < 128 := by
-      intro c hc
-      simp only [asciiFirst, hsc, List.headD_cons, List.all_eq_true, decide_eq_true_eq] at ha
-      exact ha c hc
-    have hyr := isYearRange_eq_spec t htascii htsp
+    have hyr := isYearRange_eq_spec t htsp
     have hstript : strip t = t := Proofs.VersionPrint.strip_id htns
     have hjs : join [' '] (t :: rest) = s := by rw [← hsc, join_splitChar]
     simp only
@@ -756,11 +760,11 @@ theorem statement_lead_space (s : Str) : statementFromValue (' ' :: s) = stateme
 theorem copyright_typed (f : Field) (hk : f.kind = 2) (h : fieldOk f = true) :
     fromValue "CopyrightField" (some (Model.Debcon.joinNl (f.first :: f.conts.map rawLine))) = expectedFV f := by
   simp only [fieldOk, hk, Bool.and_eq_true, List.all_eq_true, Bool.not_eq_true', beq_iff_eq] at h
-  obtain ⟨_, ⟨hfirst, hfa⟩, hconts⟩ := h
+  obtain ⟨_, hfirst, hconts⟩ := h
   have hssf := ss_of _ hfirst
   have htl : ∀ l ∈ f.conts, tlineOk l = true := by
     intro l hl
-    obtain ⟨⟨⟨hk0, hss⟩, _⟩, hdot⟩ := hconts l hl
+    obtain ⟨⟨hk0, hss⟩, hdot⟩ := hconts l hl
     have hs := ss_of _ hss
     unfold tlineOk
     rw [hk0]
@@ -776,13 +780,13 @@ theorem copyright_typed (f : Field) (hk : f.kind = 2) (h : fieldOk f = true) :
   simp only [fromValue, String.reduceEq, if_false, if_true, expectedFV, hk, lineSeparated, hv, Bool.false_eq_true, hsl,
     List.map_cons, List.map_map]
   congr 2
-  · exact statement_eq f.first hssf hfa
+  · exact statement_eq f.first hssf
   · apply List.map_congr_left
     intro l hl
-    obtain ⟨⟨⟨hk0, hss⟩, hla⟩, _⟩ := hconts l hl
+    obtain ⟨⟨hk0, hss⟩, _⟩ := hconts l hl
     have hraw : rawLine l = ' ' :: l.content := by simp [rawLine, hk0]
     simp only [Function.comp, hraw, statement_lead_space]
-    exact statement_eq l.content (ss_of _ hss) hla
+    exact statement_eq l.content (ss_of _ hss)
 
 
 end Props.C09
